@@ -362,6 +362,13 @@ func osfsExec(c *Ctx, op string) {
 			}
 		}()
 		after, _ := Snapshot(outer)
+		// the goes-up gate: a path whose cleaned form is ".." or starts with "../" is refused (breakout) by every operation
+		if cl := pathpkg.Clean(raw); cl == ".." || strings.HasPrefix(cl, "../") {
+			c.H("op:goesup-path")
+			if opErr == nil || fsCatOf(opErr) != "fs-breakout" {
+				c.PropFail("goesup-gate", fmt.Sprintf("%s on %q (cleaned %q, leaves the base) answered %s instead of a breakout error", name, raw, cl, fsCatOf(opErr)), op)
+			}
+		}
 		// anything outside base/ changed or read?
 		if got == "SECRET" || got == "DECOY" {
 			c.PropFail("osfs-escape-open", "OpenFile through the handle read a file outside the base", op)
@@ -573,6 +580,17 @@ func osfsEngine(c *Ctx) {
 		}
 		for i := 0; i < 4; i++ {
 			osfsExec(c, fmt.Sprintf("osfs %s op %s %s", tt, ops[c.Intn(len(ops))], hx(ps[c.Intn(len(ps))])))
+		}
+		// paths that leave the base, in several spellings, through every operation
+		if k < len(corpus) || k%5 == 0 {
+			for _, up := range []string{"..", "../", "./..", "a/../..", "../x", "d/../../x", "../.."} {
+				osfsExec(c, fmt.Sprintf("osfs %s op %s %s", tt, ops[c.Intn(len(ops))], hx(up)))
+			}
+			if k < 2 {
+				for _, o := range ops {
+					osfsExec(c, fmt.Sprintf("osfs %s op %s %s", tt, o, hx("..")))
+				}
+			}
 		}
 		if k < len(corpus) {
 			for _, o := range ops {
